@@ -979,6 +979,110 @@ theorem vcf_pos (cols : List Col) (v : List Int) (h : cols[1]? = some (Col.ints 
   simp only [List.getElem_zip, List.getElem_range, Option.map_some, hget, hs]
   simp [Int.sub_eq_add_neg]
 
+/-! ### interior comments and wrapped FASTA: the repaired index arithmetic, and the refutation of the old one -/
+
+/-- "a\tb\n#x\ty\nc\td\n": the shipped rule cannot build the table when a comment line contains a TAB;
+the repaired rule yields the two records -/
+theorem commentTableOld_unsound :
+    (match commentTableOld 9 35 [97,9,98,10,35,120,9,121,10,99,9,100,10] with | .error _ => true | .ok _ => false) = true ∧
+    (match commentTable 9 35 [97,9,98,10,35,120,9,121,10,99,9,100,10] with
+      | .ok t => tableFields [97,9,98,10,35,120,9,121,10,99,9,100,10] t == [[[97],[98]], [[99],[100]]]
+      | .error _ => false) = true := by decide
+
+theorem psum_getD (a : Nat) (l : List Nat) (i : Nat) (hi : i ≤ l.length) :
+    (psum a l).getD i 0 = a + (l.take i).sum := by
+  induction l generalizing a i with
+  | nil => simp at hi; subst hi; simp [psum]
+  | cons x xs ih =>
+    cases i with
+    | zero => simp [psum]
+    | succ j =>
+      simp only [psum, List.getD_cons_succ, List.take_succ_cons, List.sum_cons]
+      rw [ih (a + x) j (by simpa using hi)]
+      omega
+
+theorem sum_take_add (l : List Nat) (a n : Nat) :
+    (l.take (a + n)).sum = (l.take a).sum + ((l.drop a).take n).sum := by
+  induction l generalizing a with
+  | nil => simp
+  | cons x xs ih =>
+    cases a with
+    | zero => simp
+    | succ b =>
+      have : b + 1 + n = (b + n) + 1 := by omega
+      rw [this]
+      simp only [List.take_succ_cons, List.sum_cons, List.drop_succ_cons, ih b]
+      omega
+
+theorem seqLensAux_spec (lens : List Nat) (off : Nat) (ns : List Nat) (h : off + ns.sum ≤ lens.length) :
+    seqLensAux (psum 0 lens) off ns = (unflatten ns (lens.drop off)).map List.sum := by
+  induction ns generalizing off with
+  | nil => simp [seqLensAux, unflatten]
+  | cons n rest ih =>
+    simp only [List.sum_cons] at h
+    simp only [seqLensAux, unflatten, List.map_cons]
+    rw [psum_getD 0 lens (off + n) (by omega), psum_getD 0 lens off (by omega), sum_take_add]
+    rw [ih (off + n) (by omega), List.drop_drop]
+    congr 1
+    omega
+
+/-- **fasta_seqLens.** For any numbers of sequence lines per record — zero included — the repaired arithmetic
+gives each record the total length of its own lines. -/
+theorem fasta_seqLens (lens nLines : List Nat) (h : nLines.sum ≤ lens.length) :
+    seqLens lens nLines = (unflatten nLines lens).map List.sum := by
+  have := seqLensAux_spec lens 0 nLines (by omega)
+  simpa [seqLens] using this
+
+/-- the shipped arithmetic `ends[offsets[1:]-1] - starts[offsets[:-1]]`: a record without sequence lines at
+the end indexes past the array (IndexError); at the front it wraps around to the last line -/
+theorem seqLensOld_unsound :
+    seqLensOld [2] [1, 0] = none ∧ seqLens [2] [1, 0] = [2, 0] ∧
+    seqLensOld [2] [0, 1] = some [2, 2] ∧ seqLens [2] [0, 1] = [0, 2] := by decide
+
+/-! ### carriage returns -/
+
+/-- **crAdjust_spec.** When the first line ends in CR, the last field of every row loses exactly one trailing CR
+(if it has one), all other fields are untouched; when it does not, nothing changes. -/
+theorem crAdjust_spec (data : Bytes) (rows : List (List (Nat × Nat))) (r0 : List (Nat × Nat)) (rest : List (List (Nat × Nat)))
+    (s0 e0 : Nat) (hrows : rows = r0 :: rest) (hlast : r0.getLast? = some (s0, e0)) (he0 : e0 ≠ 0) :
+    crAdjustRows data rows =
+      if data.getD (e0 - 1) 0 = 13 then
+        rows.map (fun r => match r.getLast? with
+          | none => r
+          | some (s, e) => r.dropLast ++ [(s, if data.getD (e - 1) 0 = 13 then e - 1 else e)])
+      else rows := by
+  subst hrows
+  unfold crAdjustRows
+  simp only [hlast]
+  rw [if_neg he0]
+  split <;> rfl
+
+/-- slicing with the end moved one to the left drops exactly the last byte -/
+theorem slice_dropLast (data : Bytes) (s e : Nat) (hse : s < e) (he : e ≤ data.length) :
+    slice data s (e - 1) = (slice data s e).dropLast := by
+  simp only [slice]
+  rw [List.dropLast_eq_take, List.length_take, List.length_drop, List.take_take]
+  congr 1
+  omega
+
+theorem slice_getLast (data : Bytes) (s e : Nat) (hse : s < e) (he : e ≤ data.length) :
+    (slice data s e).getLast? = some (data.getD (e - 1) 0) := by
+  have hl : (slice data s e).length = e - s := slice_length data s e he
+  rw [List.getLast?_eq_getElem?, hl]
+  have : e - s - 1 < (slice data s e).length := by omega
+  rw [List.getElem?_eq_getElem this, slice_getElem data s e _ he (by omega)]
+  congr 2
+  omega
+
+/-- the adjusted (start, end) pair of a non-empty field denotes the field text without its trailing CR -/
+theorem crField_spec (data : Bytes) (s e : Nat) (hse : s < e) (he : e ≤ data.length) :
+    slice data s (if data.getD (e - 1) 0 = 13 then e - 1 else e) = stripCR (slice data s e) := by
+  unfold stripCR
+  rw [slice_getLast data s e hse he]
+  by_cases h : data.getD (e - 1) 0 = 13
+  · rw [if_pos h, if_pos (by rw [h]), slice_dropLast data s e hse he]
+  · rw [if_neg h, if_neg (by intro h'; exact h (by simpa using h'))]
+
 /-! ### non-vacuity -/
 
 -- "c\t1\t22\nxy\t333\t4\n" : two lines, three fields each
